@@ -21,7 +21,7 @@ use tower::ServiceExt;
 use super::*;
 use crate::report::{hash_of, Args, Report};
 
-const RULE: &str = "e2e worlds: 1-3 hyperdriver servers (auto/http1/http2 x duplex buffers 1B..64KiB / TCP / Unix) + public client stack (pool on/off, random pool config); rounds of 4-64 concurrent requests (7 methods, queries, 0-8 extra headers, bodies 0B..256KiB streamed in random chunks with pending injections, HTTP/1.1 and HTTP/2, chunked responses), cancellations after a random number of polls, HTTP/1 upgrades; every response checked online against the id-derived expectation, client and server logs joined offline; non-trivial = world in which >= 8 requests completed; distinct by (world config, seed)";
+const RULE: &str = "e2e worlds: 1-3 hyperdriver servers (auto/http1/http2 x duplex buffers 1B..64KiB / TCP / Unix, one world in four behind TLS) + public client stack (pool on/off, random pool config); rounds of 4-64 concurrent requests (7 methods, queries, 0-8 extra headers, bodies 0B..256KiB streamed in random chunks with pending injections and with or without an announced length, requests versioned HTTP/1.0, HTTP/1.1 and HTTP/2, chunked responses), cancellations after a random number of polls, HTTP/1 upgrades; every response checked online against the id-derived expectation, client and server logs joined offline; non-trivial = world in which >= 8 requests completed; distinct by (world config, seed)";
 
 #[derive(Clone, Debug)]
 pub struct WorldCfg {
@@ -36,6 +36,19 @@ pub struct WorldCfg {
     pub upgrade_pct: u32,
     pub multi_thread: bool,
     pub big_bodies: bool,
+    /// every server terminates TLS (fixture CA), origins are https://
+    pub tls: bool,
+}
+
+/// host names covered by the fixture certificate, by server index
+const TLS_HOSTS: [&str; 3] = ["a.test", "b.test", "example.com"];
+
+fn host_of(cfg: &WorldCfg, si: usize) -> String {
+    if cfg.tls {
+        TLS_HOSTS[si % 3].to_string()
+    } else {
+        format!("s{si}.test")
+    }
 }
 
 impl WorldCfg {
@@ -44,7 +57,7 @@ impl WorldCfg {
             "engine": "traffic", "seed": self.seed,
             "servers": self.servers.iter().map(|(p, n)| format!("{p:?}/{n:?}")).collect::<Vec<_>>(),
             "pool": self.pool, "max_idle": self.max_idle, "cont": self.cont, "rounds": self.rounds, "per_round": self.per_round,
-            "cancel_pct": self.cancel_pct, "upgrade_pct": self.upgrade_pct, "multi_thread": self.multi_thread, "big_bodies": self.big_bodies,
+            "cancel_pct": self.cancel_pct, "upgrade_pct": self.upgrade_pct, "multi_thread": self.multi_thread, "big_bodies": self.big_bodies, "tls": self.tls,
         })
     }
     pub fn from_json(v: &Value) -> WorldCfg {
@@ -82,6 +95,7 @@ impl WorldCfg {
             upgrade_pct: v["upgrade_pct"].as_u64().unwrap_or(0) as u32,
             multi_thread: v["multi_thread"].as_bool().unwrap_or(false),
             big_bodies: v["big_bodies"].as_bool().unwrap_or(false),
+            tls: v["tls"].as_bool().unwrap_or(false),
         }
     }
 }
@@ -170,9 +184,11 @@ fn gen_request(rng: &mut StdRng, id: u64, cfg: &WorldCfg) -> (ReqSpec, usize, bo
     };
     let chunk = [0usize, 1, 7, 100, 4096, 16_384][rng.gen_range(0..6)];
     let chunk = if body_len > 20_000 && chunk < 100 { 4096 } else { chunk };
+    let host = host_of(cfg, si);
+    let scheme = if cfg.tls { "https" } else { "http" };
     let spelling = match rng.gen_range(0..4) {
-        0 => format!("http://S{si}.test"),
-        _ => format!("http://s{si}.test"),
+        0 => format!("{scheme}://{}", host.to_ascii_uppercase().replace(".TEST", ".test").replace(".COM", ".com")),
+        _ => format!("{scheme}://{host}"),
     };
     let mut headers: Vec<(String, String)> = (0..rng.gen_range(0..8)).map(|j| (format!("x-c{j}"), format!("val-{id}-{j}-{}", "z".repeat(rng.gen_range(0..40))))).collect();
     if upgrade {
@@ -182,6 +198,7 @@ fn gen_request(rng: &mut StdRng, id: u64, cfg: &WorldCfg) -> (ReqSpec, usize, bo
     if rng.gen_bool(0.3) {
         headers.push(("x-delay-yields".into(), rng.gen_range(1..20u32).to_string()));
     }
+    let chunkable = method != http::Method::GET && method != http::Method::HEAD;
     let spec = ReqSpec {
         id,
         origin: spelling,
@@ -194,6 +211,9 @@ fn gen_request(rng: &mut StdRng, id: u64, cfg: &WorldCfg) -> (ReqSpec, usize, bo
         pending_every: [0usize, 2, 3][rng.gen_range(0..3)],
         headers,
         resp_chunk: [0usize, 1, 64, 5000][rng.gen_range(0..4)],
+        // hyper itself sends no chunked body for GET / HEAD / CONNECT (a body of unknown length is dropped there)
+        unsized_body: body_len > 0 && chunkable && rng.gen_bool(0.4),
+        http10: !h2 && !upgrade && rng.gen_bool(0.15),
     };
     (spec, si, upgrade)
 }
@@ -263,8 +283,18 @@ pub async fn run_world_async(cfg: WorldCfg) -> WorldResult {
     let routes = Routes { log: log.clone(), ..Default::default() };
     let mut servers = Vec::new();
     for (i, (proto, net)) in cfg.servers.iter().enumerate() {
-        let h = spawn_upgrade_capable_server(i, *proto, *net, log.clone(), gates.clone()).await;
-        routes.add(&format!("s{i}.test"), h.target.clone());
+        let tls = if cfg.tls {
+            let alpn: &[&str] = match proto {
+                Proto::H1 => &["http/1.1"],
+                Proto::H2 => &["h2"],
+                Proto::Auto => &["h2", "http/1.1"],
+            };
+            Some(Arc::new(server_tls("good", alpn)))
+        } else {
+            None
+        };
+        let h = spawn_upgrade_capable_server(i, *proto, *net, tls, log.clone(), gates.clone()).await;
+        routes.add(&host_of(&cfg, i), h.target.clone());
         servers.push(h);
     }
     let pool = if cfg.pool {
@@ -276,7 +306,7 @@ pub async fn run_world_async(cfg: WorldCfg) -> WorldResult {
     } else {
         None
     };
-    let client = build_client(routes.clone(), pool, None, None);
+    let client = build_client(routes.clone(), pool, if cfg.tls { Some(client_tls(&["h2", "http/1.1"])) } else { None }, None);
     let mut outcomes = Vec::new();
     let mut next_id = 1u64 + (cfg.seed % 1000) * 1_000_000;
     let mut hang = false;
@@ -331,8 +361,8 @@ pub async fn run_world_async(cfg: WorldCfg) -> WorldResult {
 }
 
 /// like `spawn_server`, with a handler that also answers `Upgrade: hdv` requests
-async fn spawn_upgrade_capable_server(id: usize, proto: Proto, net: Net, log: Arc<Log>, gates: Gates) -> ServerHandle {
-    spawn_server(ServerSpec { id, proto, net, tls: None, graceful: false, sni_validation: false }, log, gates).await
+async fn spawn_upgrade_capable_server(id: usize, proto: Proto, net: Net, tls: Option<Arc<rustls::ServerConfig>>, log: Arc<Log>, gates: Gates) -> ServerHandle {
+    spawn_server(ServerSpec { id, proto, net, tls, graceful: false, sni_validation: false }, log, gates).await
 }
 
 pub fn run_world(cfg: &WorldCfg) -> WorldResult {
@@ -363,6 +393,12 @@ pub fn judge(cfg: &WorldCfg, res: &WorldResult, rep: &mut Report, args: &Args) {
         p.count("server_handler_invocations", handled.len() as u64);
         p.count("dials", res.log.dials.lock().unwrap().len() as u64);
         p.count(if cfg.multi_thread { "worlds_multi_thread" } else { "worlds_current_thread_paused" }, 1);
+        if cfg.tls {
+            p.count("worlds_tls", 1);
+            p.count("requests_completed_ok_over_tls", completed as u64);
+        }
+        p.count("requests_unsized_body", res.outcomes.iter().filter(|(s, o)| s.unsized_body && matches!(o, Outcome::Ok)).count() as u64);
+        p.count("requests_versioned_http10", res.outcomes.iter().filter(|(s, o)| s.http10 && matches!(o, Outcome::Ok)).count() as u64);
         for (_, n) in cfg.servers.iter() {
             p.count(&format!("worlds_with_{}", match n { Net::Duplex(_) => "duplex", Net::Tcp => "tcp", Net::Unix => "unix" }), 1);
         }
@@ -431,6 +467,7 @@ pub fn gen_worlds(seed: u64, n: usize, thorough: bool) -> Vec<WorldCfg> {
     let mut v = Vec::new();
     for i in 0..n {
         let multi = i % 4 == 3;
+        let tls = i % 5 == 1 || i % 20 == 3;
         let ns = rng.gen_range(1..=3usize);
         let servers = (0..ns)
             .map(|_| {
@@ -440,6 +477,8 @@ pub fn gen_worlds(seed: u64, n: usize, thorough: bool) -> Vec<WorldCfg> {
                 } else {
                     Net::Duplex([1usize, 2, 17, 256, 1024, 4096, 65_536][rng.gen_range(0..7)])
                 };
+                // TLS worlds: no tiny pipes (a handshake over a 1-byte pipe only costs time)
+                let net = if tls && matches!(net, Net::Duplex(b) if b < 256) { Net::Duplex(256) } else { net };
                 // hyper's HTTP/2 over a tokio duplex pipe smaller than ~32 bytes never completes its handshake (probed
                 // with plain hyper and an independent bridge: not hyperdriver's doing), so tiny pipes carry HTTP/1 only
                 // (auto-detecting servers on tiny pipes get HTTP/1.1 requests only, see gen_request)
@@ -459,7 +498,8 @@ pub fn gen_worlds(seed: u64, n: usize, thorough: bool) -> Vec<WorldCfg> {
             cancel_pct: [0u32, 0, 10, 30][rng.gen_range(0..4)],
             upgrade_pct: [0u32, 5, 20][rng.gen_range(0..3)],
             multi_thread: multi,
-            big_bodies: !tiny && rng.gen_bool(0.3),
+            big_bodies: !tiny && (rng.gen_bool(0.3) || tls && rng.gen_bool(0.5)),
+            tls,
         });
     }
     v
@@ -490,7 +530,7 @@ pub fn run(args: &Args) -> Report {
     });
     rep.merge(part);
     if let Some(p) = rep.props.get_mut("C01") {
-        p.assume("peers are hyperdriver/hyper servers that never break a connection; bodies up to 256 KiB; TLS worlds are covered by the tlsworld engine");
+        p.assume("peers are hyperdriver/hyper servers that never break a connection; bodies up to 256 KiB; one world in four terminates TLS at the servers (fixture CA)");
         p.assume("in paused-clock duplex worlds a hang is exact (virtual 1h timeout fires only when nothing is runnable); in real-socket worlds a 60 s wall-clock watchdog is inconclusive");
     }
     rep
